@@ -14,6 +14,7 @@ import (
 	"fmt"
 	"net"
 	"runtime"
+	"strings"
 	"sync/atomic"
 	"time"
 
@@ -532,6 +533,84 @@ func cliRawTransmissionProbe() string {
 	})
 	if status != "ok" && what == "" {
 		what = "raw transmission probe: bubble ended with " + status
+	}
+	return what
+}
+
+// Probe "second call while the first is being serialised" of oracle c10 (free-running,
+// ordered by channels): call A's request carries an option whose ToBytes parks - A is
+// inside send(), serialising, when call B arrives with the same transaction id.  B is
+// refused at once ("a second concurrent SendAndRead with the same transaction id is
+// refused"); it neither transmits nor waits.
+// (seeded change C10-5: the pending check and the registration in two critical
+// sections, with the serialisation between them.)
+type parkOpt struct {
+	entered chan struct{}
+	release chan struct{}
+	n       atomic.Int32
+}
+
+func (o *parkOpt) Code() dhcpv6.OptionCode { return dhcpv6.OptionCode(65003) }
+func (o *parkOpt) ToBytes() []byte {
+	if o.n.Add(1) == 1 {
+		close(o.entered)
+		select {
+		case <-o.release:
+		case <-time.After(3 * time.Second):
+		}
+	}
+	return []byte{1}
+}
+func (o *parkOpt) String() string         { return "parkOpt" }
+func (o *parkOpt) FromBytes([]byte) error { return nil }
+
+func cliParkedSerialisationProbe() string {
+	conn := &newCloseConn{closed: make(chan struct{})}
+	c, err := nclient6.NewWithConn(conn, clHW, nclient6.WithTimeout(200*time.Millisecond), nclient6.WithRetry(1))
+	if err != nil {
+		return ""
+	}
+	defer c.Close()
+	x := uint32(cliMXidBase + 13)
+	park := &parkOpt{entered: make(chan struct{}), release: make(chan struct{})}
+	reqA := req6(x)
+	reqA.AddOption(park)
+	aDone := make(chan error, 1)
+	go func() {
+		_, err := c.SendAndRead(context.Background(), clDest6, reqA, nil)
+		aDone <- err
+	}()
+	select {
+	case <-park.entered:
+	case err := <-aDone:
+		close(park.release)
+		return fmt.Sprint("call A ended before its request was serialised: ", err)
+	case <-time.After(2 * time.Second):
+		close(park.release)
+		return "" // this client does not serialise inside SendAndRead: nothing to probe
+	}
+	bDone := make(chan error, 1)
+	t0 := time.Now()
+	go func() {
+		_, err := c.SendAndRead(context.Background(), clDest6, req6(x), nil)
+		bDone <- err
+	}()
+	var what string
+	select {
+	case err := <-bDone:
+		if err == nil || !strings.Contains(err.Error(), "already in use") {
+			what = fmt.Sprintf("a second SendAndRead with the transaction id of a call that is inside send(), serialising its request, ended after %v with %v; want it refused at once (transaction id in use)", time.Since(t0).Round(time.Millisecond), err)
+		}
+	case <-time.After(2 * time.Second):
+		what = "a second SendAndRead with the transaction id of a call that is inside send(), serialising its request, was not refused: it is still running 2 s later (T=200ms, 1 try)"
+	}
+	close(park.release)
+	select {
+	case <-aDone:
+	case <-time.After(3 * time.Second):
+		if what == "" {
+			what = "call A (T=200ms, 1 try) did not end within 3 s of its serialisation being released"
+		}
 	}
 	return what
 }
